@@ -16,9 +16,11 @@ from .common import sample_constraints, decorate, exc_site, is_harness_frame, qu
 
 PROPERTY = "C12"
 KEY_EVENT = "STEP"
-RULE = ("one run = one seeded call history (<= 10 ops from fit, fit_predict, predict, predict_proba, score, path, set_params, "
-        "get/set round trip, clone, rejected fits, fits/paths crashed at a simulator-chosen point) on one estimator of a "
-        "sampled family (all 18) over a pool of 3 datasets; non-trivial = at least one fit/path was judged after >= 1 earlier "
+RULE = ("one run = one seeded call history (usually <= 9, sometimes up to 15 ops from fit, fit_predict, predict, predict_proba, score, "
+        "path, set_params incl. GEMINI-related parameters, get/set round trip, clone, a second estimator built from the same "
+        "parameter objects, the user changing his array in place, calls omitting a precomputed matrix, rejected fits, NaN-aborted "
+        "paths, fits/paths crashed at a simulator-chosen point) on one estimator of a sampled family (all 18) over a pool of 3 "
+        "datasets in various memory layouts; 12% of the judged calls are also compared with a clean-room execution; non-trivial = at least one fit/path was judged after >= 1 earlier "
         "op; distinct = distinct (family, op-kind sequence)")
 STATE_MEASURE = "distinct (family, sequence of op kinds with outcomes) histories"
 COMPONENTS_REAL = ["all 18 gemclus estimators (fit, fit_predict, predict, predict_proba, score, path), sklearn clone/get_params/set_params",
